@@ -44,6 +44,16 @@ def passed(txt):
 
 
 def run_checks(dest, props, tier):
+    import fcntl
+    lock = open("/root/work/repo.lock", "w")
+    fcntl.flock(lock, fcntl.LOCK_EX)      # /repo's working tree is shared with tools/mergeprop.sh
+    try:
+        return _run_checks(dest, props, tier)
+    finally:
+        fcntl.flock(lock, fcntl.LOCK_UN)
+
+
+def _run_checks(dest, props, tier):
     rc, out = sh("git -C /repo status --porcelain --untracked-files=no")
     assert out.strip() == "", "/repo not clean: " + out
     rc, out = sh(f"git -C /repo apply {dest}/patch.diff")
